@@ -104,6 +104,14 @@ theorem kill (pid sig : Nat) : KOp (fun k => Kernel.kill k pid sig) := by
             · exact refl _
       · exact refl _
 
+/-- the daemon's own `kill`: either refused (only the tick happened) or the plain `kill` -/
+theorem killD (pid sig : Nat) : KOp (fun k => Kernel.killD k pid sig) := by
+  intro k
+  simp only [Kernel.killD]
+  split
+  · exact tick k
+  · exact kill pid sig k
+
 theorem waitpid (pid : Option Nat) : KOp (fun k => Kernel.waitpid k pid) := by
   intro k
   simp only [Kernel.waitpid]
